@@ -64,7 +64,7 @@ def build_text(case, comment_mode):
     return '\n'.join(out)
 
 
-def gen_case(rng):
+def gen_case(rng, idx=0):
     spec = G.gen_affine(rng, tol=rng.choice([None, 1e-6, 1e-9]))
     spec['style']['comments'] = False
     sty = spec['style']['spacing']
@@ -110,8 +110,13 @@ def gen_case(rng):
                 lines.insert(r.randint(0, len(lines)), {'kind': 'eq', 'text': '%s = %s' % (nm, rhs), 'trail': r.random() < 0.4})
                 expected.append(['endo', nm, rhs])
                 lag_lookalikes.append(nm)
-    for n, v in spec['ics'].items():
-        lines.insert(r.randint(0, len(lines)), {'kind': 'eq', 'text': eqline(n + '(0)', G.fmt_num(v)),
+    blank_before_marker = idx % 5 == 3
+    if blank_before_marker and not spec['ics']:
+        spec['ics'][spec['simul'][0]['name']] = 2.5
+    for j_, (n, v) in enumerate(spec['ics'].items()):
+        # (idx % 5 == 3: the time-zero marker set off from the name by a blank or a tab - spacing, nothing else)
+        marker0 = ([' (0)', '\t(0)', '  (0)'][j_ % 3]) if blank_before_marker else '(0)'
+        lines.insert(r.randint(0, len(lines)), {'kind': 'eq', 'text': eqline(n + marker0, G.fmt_num(v)),
                                                 'trail': r.random() < 0.3})
         expected.append(['ic', n, G.fmt_num(v)])
     if spec['time'] is None and r.random() < 0.35:
@@ -150,7 +155,7 @@ def gen_case(rng):
     return {'kind': 'block', 'lines': lines, 'expected': expected, 'malformed': malformed,
             'maxtime': spec['maxtime'], 'tol': spec['tol'], 'has_time': spec['time'] is not None,
             'ic_on_default_time': any(e[0] == 'ic' and e[1] == 't' for e in expected) and spec['time'] is None,
-            'case_variants': case_variants, 'lag_lookalikes': lag_lookalikes,
+            'case_variants': case_variants, 'lag_lookalikes': lag_lookalikes, 'blank_before_time_zero_marker': blank_before_marker,
             'cseed': rng.getrandbits(30), 'names': G.all_value_names(spec) + [d['name'] for d in spec['decos']]}
 
 
@@ -176,7 +181,8 @@ class C14(object):
                          'block.judged.with_expressions_that_look_like_lag_spellings',
                          'reused_parser.after_a_failed_parse',
                          'model_desc.builds_with_log_files_registered',
-                         'run_parameters_on_reused_solver.judged')
+                         'run_parameters_on_reused_solver.judged',
+                         'block.judged.with_a_blank_between_name_and_time_zero_marker')
 
     def n_cases(self, tier):
         return 300 if tier == 'quick' else 20000
@@ -197,7 +203,7 @@ class C14(object):
                 from vf.gen import modelspec as M
                 case['mspec'] = M.gen_spec(rng, n_zones=rng.choice([1, 2]), maxtime=3)
             return case
-        return gen_case(rng)
+        return gen_case(rng, idx)
 
     # ------------------------------------------------------------------------------------------
     def parse(self, text):
@@ -294,6 +300,8 @@ class C14(object):
             rec.count('block.judged.with_names_differing_from_reserved_ones_by_case')
         if case.get('lag_lookalikes'):
             rec.count('block.judged.with_expressions_that_look_like_lag_spellings')
+        if case.get('blank_before_time_zero_marker'):
+            rec.count('block.judged.with_a_blank_between_name_and_time_zero_marker')
         if any(ln['kind'] == 'marker' and ln['text'] != ln['text'].lstrip() and ln['text'].lstrip().startswith('#') for ln in case['lines']):
             rec.count('block.judged.with_indented_comment_marker')
         # a parser object that has already read another block (with an exogenous section and its own time variable)
